@@ -2,8 +2,11 @@ SPECIFICATION Spec
 CONSTANTS
   Dims = {1, 2, 3}
   MaxBins = 3
+  BinChoices = {1, 2, 3}
+  Scales = {0}
   Bounds <- QBounds
 INVARIANT Exact
+INVARIANT Representable
 INVARIANT CountIsProduct
 INVARIANT FullProduct
 INVARIANT RowMajor
